@@ -8,7 +8,7 @@ from visions.types.string import String
 @Path.register_relationship(String, Sequence)
 def string_is_path(series, state: dict) -> bool:
     try:
-        s = string_to_path(series.copy(), state)
+        s = string_to_path(series, state)
         return all(value.is_absolute() for value in s)
     except TypeError:
         return False
